@@ -339,16 +339,20 @@ def fold_cases(tier, seed):
             for (w2, s2) in ((w, s), (w, not s)):
                 for shape in ("f_f", "f_lit", "fplusf_f", "fpluslit_f"):
                     out.append((op, w, s, w2, s2, shape))
+            for j in (0, 1, 2):
+                out.append((op, w, s, w, s, "sub%d_lit" % j))       # non-random list element selected by the foreach index
     return out
 
 
 @contract("x_expr_evaluator.fold", ["C02"],
           ["vsc.visitors.x_expr_evaluator.XExprEvaluator.eval", "vsc.visitors.x_expr_evaluator.XExprEvaluator.visit_expr_bin",
            "vsc.visitors.x_expr_evaluator.XExprEvaluator.visit_scalar_field", "vsc.visitors.x_expr_evaluator.XExprEvaluator.visit_expr_literal",
+           "vsc.visitors.x_expr_evaluator.XExprEvaluator.visit_expr_array_subscript",
            "vsc.visitors.array_constraint_builder.ArrayConstraintBuilder.visit_constraint_if_else"],
           fold_cases, max_paths=5000,
           note="folding of an if-condition over non-random operands: 6 comparison operators x operand types x shapes field/field, "
-               "field/literal, (field+field)/field, (field+literal)/field; all in-type values")
+               "field/literal, (field+field)/field, (field+literal)/field, (non-random list[index])/literal for each index of a 3-element list; "
+               "all in-type values")
 def c_fold(c, op, w, s, w2, s2, shape):
     from vsc.model.field_scalar_model import FieldScalarModel
     from vsc.model.expr_bin_model import ExprBinModel
@@ -367,7 +371,29 @@ def c_fold(c, op, w, s, w2, s2, shape):
     k = c.fresh_int("k", -(1 << 31), (1 << 31) - 1)
     N1, N2, N3, L = ExprFieldRefModel(n1), ExprFieldRefModel(n2), ExprFieldRefModel(n3), ExprLiteralModel(k, True, 32)
     F1, F2, F3, LK = ("field", n1.val.v, w, s), ("field", n2.val.v, w2, s2), ("field", n3.val.v, w, s), ("lit", k, 32, True)
-    if shape == "f_f":
+    if shape.startswith("sub"):
+        from vsc.model.field_array_model import FieldArrayModel
+        from vsc.model.expr_array_subscript_model import ExprArraySubscriptModel
+        j = int(shape[3])
+
+        class T:
+            width = w
+        arr = FieldArrayModel("nl", T(), True, None, w, s, False, False)
+        vals = []
+        for _ in range(3):
+            f = arr.add_field()
+            f.is_used_rand = False
+            v = c.fresh_int("e")
+            c.assume(in_type(v, w, s))
+            f.val.v = v
+            vals.append(v)
+        arr.is_used_rand = False
+        idx = FieldScalarModel("index", 32, False, False)
+        idx.is_used_rand = False
+        idx.set_val(j)
+        e = ExprBinModel(ExprArraySubscriptModel(ExprFieldRefModel(arr), ExprFieldRefModel(idx)), BinExprType[op], L)
+        truth = cmp_truth(op, ("field", vals[j], w, s), LK)
+    elif shape == "f_f":
         e, truth = ExprBinModel(N1, BinExprType[op], N2), cmp_truth(op, F1, F2)
     elif shape == "f_lit":
         e, truth = ExprBinModel(N1, BinExprType[op], L), cmp_truth(op, F1, LK)
